@@ -51,7 +51,7 @@ Definition time_params : list (string * list string) := [
   ("pynapple/process/correlograms.py:compute_eventcorrelogram", ["binsize"; "windowsize"]);
   ("pynapple/process/decoding.py:decode_1d", ["bin_size"]);
   ("pynapple/process/decoding.py:decode_2d", ["bin_size"]);
-  ("pynapple/process/perievent.py:compute_event_trigger_average", ["binsize"]);
+  ("pynapple/process/perievent.py:compute_event_trigger_average", ["binsize"; "windowsize"]);
   ("pynapple/process/perievent.py:compute_perievent", ["minmax"]);
   ("pynapple/process/perievent.py:compute_perievent_continuous", ["minmax"]);
   ("pynapple/process/spectrum.py:compute_mean_power_spectral_density", ["interval_size"]);
@@ -114,4 +114,19 @@ Definition inplace_ok : bool :=
   && forallb (fun '(_, p) => Nat.eqb p 1) inplace_callers
   && negb (Nat.eqb (length inplace_callers) 0).
 Lemma inplace_checked : inplace_ok = true.
+Proof. vm_compute. reflexivity. Qed.
+
+(* inplace_ok accepts provenance 3 / 4 (a write into self.values / self._metadata) in ANY function.  The statement allows
+   such writes only in the sanctioned mutators (item assignment, set_info): pin the sites by name, so that a
+   `self.values *= 2` inside a query method fails the check instead of being classified "item assignment". *)
+Definition sanctioned_mutators : list (string * nat) := [
+  ("pynapple/core/time_series.py:__setitem__:setitem:self", 3);
+  ("pynapple/core/metadata_class.py:set_info:store:self", 4);
+  ("pynapple/core/ts_group.py:__setitem__:store:self", 4)
+].
+Definition inplace_pinned_ok : bool :=
+  forallb (fun '(k, p) => Nat.eqb p 1 || Nat.eqb p 2
+             || existsb (fun '(k', p') => String.eqb k k' && Nat.eqb p p') sanctioned_mutators) inplace_table
+  && forallb (fun '(k, _) => match lookup k inplace_table with Some _ => true | None => false end) sanctioned_mutators.
+Lemma inplace_pinned_checked : inplace_pinned_ok = true.
 Proof. vm_compute. reflexivity. Qed.
